@@ -357,6 +357,62 @@ def r11_11(chk, facts):
                          'inside the child are credited to the parent' % (A.strip_targs(fn.get('cls') or fn['n']).split('::')[-1], A.text(call['args'][1])[:30], d.get('n'), len(args)), None, fn['q'])
     chk.require(n >= 9, 'R11.11: only %d child-value contexts found' % n)
 
+# JSON Schema validation vocabulary (draft 2020-12 section 6.2-6.5, the same in every draft for these keywords): the instance is rejected when ...
+BOUND_OPS = {'maximum_validator': '>', 'exclusive_maximum_validator': '>=', 'minimum_validator': '<', 'exclusive_minimum_validator': '<=',
+             'max_length_validator': '>', 'min_length_validator': '<', 'max_items_validator': '>', 'min_items_validator': '<',
+             'max_properties_validator': '>', 'min_properties_validator': '<'}
+
+def r11_12(chk, facts):
+    """Every representation branch of a bound keyword rejects with the operator the vocabulary prescribes."""
+    from .. import guards as G, cfg as C
+    chk.rule('R11.12', 'bound keywords: in do_validate of maximum / exclusiveMaximum / minimum / exclusiveMinimum / maxLength / minLength / maxItems / '
+                       'minItems / maxProperties / minProperties every reporter.error() is guarded by a comparison `instance OP bound` with the '
+                       'operator of the vocabulary (> , >=, <, <=, >, <, ...), in each representation branch alike (int64, uint64, big integer, '
+                       'double); sides are told apart by what they are computed from (the instance parameter or a member of the validator), so a '
+                       'swapped spelling `bound < instance` is the same test', floor=16)
+    n = 0; seen_cls = set()
+    for fn in sorted(facts.functions, key=lambda f: bool(f.get('dep'))):
+        if fn.get('body') is None or fn['n'] != 'do_validate' or not fn['file'].endswith('keyword_validator.hpp'): continue
+        short = A.strip_targs(fn.get('cls') or '').split('::')[-1]
+        if short not in BOUND_OPS or short in seen_cls: continue
+        if fn.get('dep') and any((not g_.get('dep')) and g_['n'] == 'do_validate' and A.strip_targs(g_.get('cls') or '').split('::')[-1] == short and g_.get('body') is not None for g_ in facts.functions): continue
+        seen_cls.add(short)
+        chk.analysed(fn)
+        want = BOUND_OPS[short]
+        inits = {x['id']: x['init'] for x in A.walk(fn['body']) if x.get('k') == 'VarDecl' and x.get('init') is not None and x.get('id') is not None}
+        def roots(e, depth=0):
+            r = set()
+            for x in A.walk(e):
+                if x.get('k') == 'DeclRefExpr':
+                    if x.get('id') in inits and depth < 4: r |= roots(inits[x['id']], depth + 1)
+                    else: r.add(x.get('n'))
+                elif x.get('k') == 'MemberExpr' and (A.strip(x.get('base')) or {}).get('k') == 'CXXThisExpr': r.add('this.' + (x.get('n') or ''))
+            return r
+        g = C.CFG(fn['body'])
+        errs = [c for c in A.calls_in(fn['body'], no_lambda=True) if A.callee_name(c) == 'error' and 'reporter' in A.text(c.get('obj') or {})]
+        for i, c in enumerate(errs):
+            nd = g.node_of(c)
+            found = None
+            for a, lab, e in (g.guards(nd) if nd is not None else []):
+                cm = G.comparison(a)
+                if not cm or not isinstance(lab, bool) or cm[0] in ('==', '!='): continue
+                op = cm[0] if lab else G.NEG[cm[0]]
+                rl, rr = roots(cm[1]), roots(cm[2])
+                l_inst = 'instance' in rl; r_inst = 'instance' in rr
+                l_bound = any(x.startswith('this.') for x in rl); r_bound = any(x.startswith('this.') for x in rr)
+                if l_inst and r_bound and not r_inst: found = (op, a); break
+                if r_inst and l_bound and not l_inst: found = (G.FLIP[op], a); break
+            n += 1
+            site = U.site(fn, 'reporter.error#%d' % (i + 1))
+            if found is None:
+                chk.fail('R11.12', site, fn['file'], c.get('l'), '%s reports an error that is not guarded by a comparison of the instance with the bound' % short, None, fn['q'])
+            elif found[0] == want: chk.ok('R11.12', site, {'class': short, 'test': A.text(found[1])[:80], 'rejects_when': 'instance %s bound' % want})
+            else:
+                chk.fail('R11.12', site, fn['file'], c.get('l'), '%s rejects when `%s`, that is instance %s bound; the keyword rejects when instance %s bound (the other representation branches of this '
+                         'validator and the vocabulary agree on %s): an instance exactly at the bound gets the wrong verdict in this branch only' % (short, A.text(found[1])[:90], found[0], want, want), None, fn['q'])
+    chk.require(len(seen_cls) == len(BOUND_OPS), 'R11.12: bound validators not found: %s' % sorted(set(BOUND_OPS) - seen_cls))
+    chk.require(n >= 16, 'R11.12: only %d guarded reports found' % n)
+
 def run(chk, tier, only_rule=None):
     chk.explanation = EXPLANATION
     chk.not_decided = NOT_DECIDED
@@ -373,6 +429,7 @@ def run(chk, tier, only_rule=None):
     r11_9(chk, facts)
     r11_10(chk, facts)
     r11_11(chk, facts)
+    r11_12(chk, facts)
     voc = vocab()
     # keywords looked up by the shared layers every dialect factory delegates to
     shared = {}
